@@ -702,6 +702,18 @@ class Emit:
                     out = set(); s.refs_in_const(ev, out)
                     bases.extend(x for x in out if x.startswith('@_ZTI'))
                 s.tinfo[name] = bases
+        # vtable slots for devirtualisation: slot index -> [(function name, TFn)]
+        s.vtslots = {}
+        for name, t, init, is_const, is_decl in m.globals:
+            if name.startswith('@_ZTV') and init and init[0] == 'cstruct' and kept(name):
+                for at, av in init[1]:
+                    if av[0] != 'carr': continue
+                    for i, (et, ev) in enumerate(av[1]):
+                        if i < 2 or ev[0] != 'ccast' or ev[3][0] != 'id': continue
+                        fn = ev[3][1]
+                        if fn == '@__cxa_pure_virtual' or fn not in m.fsigs: continue
+                        lst = s.vtslots.setdefault(i - 2, [])
+                        if fn not in [x for x, _ in lst]: lst.append((fn, m.fsigs[fn]))
         # function prototypes
         protos = []
         s.stubs = []
@@ -775,6 +787,7 @@ class Emit:
     def func(s, f):
         s.bc = {}
         s.expr = {}
+        s.vtbl = set(); s.gepk = {}; s.vslot = {}
         # pre-scan: bitcast targets of each SSA value (used to give 'new T' a typed allocation)
         s.bcto = {}
         for b in f['blocks']:
@@ -969,6 +982,10 @@ class Emit:
         if op == 'load':
             p.accept('volatile'); p.accept('atomic')
             t = p.ty(); p.expect(','); pt, pv = p.tval()
+            if isinstance(t, TPtr) and isinstance(t.t, TPtr) and isinstance(t.t.t, TFn): s.vtbl.add(dst)
+            if isinstance(t, TPtr) and isinstance(t.t, TFn) and pv[0] == 'id':
+                if pv[1] in s.gepk: s.vslot[dst] = s.gepk[pv[1]]
+                elif pv[1] in s.vtbl: s.vslot[dst] = 0
             return setv(t, s.deref(V(pt, pv)))
         if op == 'store':
             p.accept('volatile'); p.accept('atomic')
@@ -986,6 +1003,9 @@ class Emit:
                 rc = s.resolve(cur)
                 if isinstance(rc, TStruct): cur = rc.fields[int(re.search(r'\)(\d+)ULL\)', ie).group(1))]
                 else: cur = rc.t
+            if pv[0] == 'id' and pv[1] in s.vtbl and len(idx) == 1:
+                mm = re.fullmatch(r'\(\(uint64_t\)(\d+)ULL\)', idx[0][1])
+                if mm: s.gepk[dst] = int(mm.group(1))
             s.expr[dst] = s.gep_expr(bt, V(pt, pv), idx)
             return None
         if op in ('add', 'sub', 'mul', 'udiv', 'sdiv', 'urem', 'srem', 'shl', 'lshr', 'ashr', 'and', 'or', 'xor', 'fadd', 'fsub', 'fmul', 'fdiv'):
@@ -1154,6 +1174,24 @@ class Emit:
             return 'free((void*)%s);' % V(*args[0])
         if k in ('id', 'qid') and callee.startswith('@'):
             e = '%s(%s)' % (cname(callee), A)
+        elif callee in s.vslot and s.opts.get('devirt', True):
+            cands = []
+            for fn, ft in s.vtslots.get(s.vslot[callee], []):
+                if len(ft.args) != len(args) or repr(ft.ret) != repr(rt) or ft.va: continue
+                if [repr(a) for a in ft.args[1:]] != [repr(t) for t, _ in args[1:]]: continue
+                cands.append((fn, ft))
+            fp = s.lv(callee)
+            parts = []
+            rest = ', '.join(V(t, v) for t, v in args[1:])
+            for fn, ft in cands:
+                a0 = '(%s)%s' % (s.ctype(ft.args[0]), V(*args[0]))
+                ce = '%s(%s%s)' % (cname(fn), a0, (', ' + rest) if rest else '')
+                if not isinstance(rt, TVoid) and dst is not None:
+                    loc[dst] = s.ctype(rt)
+                    ce = '%s = %s' % (s.lv(dst), ce)
+                parts.append('if ((void*)%s == (void*)&%s) { %s; }' % (fp, cname(fn), ce))
+            parts.append('{ __CPROVER_assert(0, "ll2c: virtual call through slot %d has no known target"); __CPROVER_assume(0); }' % s.vslot[callee])
+            return ' else '.join(parts)
         else:
             e = '%s(%s)' % (s.lv(callee), A)
         if isinstance(rt, TVoid): return e + ';'
